@@ -98,6 +98,13 @@ CHECKS.append(check(
     "deterministic simulation: seeded public-call histories on persistent receiver state executed by a reference interpreter (model), with the real checker's per-statement fact lists (observer injected at check time) evaluated as invariants at every executed statement",
     "DESIGN.md section 3 D, section 4, section 5 C02, Appendix E"))
 
+CHECKS.append(check(
+    "C04", "wsim", "exploration",
+    "One run = one program accepted by the working tree's checker (an operator-stress generator computing with u8, u16, u32 and u64 at once: modular, saturating, bitwise, shift, division and modulus by constants, widening and narrowing conversions, min / max / low_bits / high_bits, compound assignments on narrow types and on array elements, private pure and impure calls, if / else-if / else, counted loops with labelled break and continue including a break out of the enclosing loop; plus the C01 and C02 generators and the hand corpus) and one seeded history of public calls with boundary-biased arguments on a persistent receiver. The history is executed by the reference interpreter and by the C that the working tree's wuffs-c generates from the same source at check time, compiled by clang-14 (-O0 with ASan+UBSan, or -O2, drawn per run) against the base library generated at check time, and driven by a generated main() that performs exactly the recorded calls. Compared: every return value, then the whole receiver state (every scalar field, every array element) through appended getters. Also reported: a sanitizer report in the C for a history the interpreter executed safely, and generated C that clang rejects.",
+    "Sampling of programs x call histories. The interpreter is the reference for 'what the source means' (ideal integers, written from the language documentation; it shares the front end with the compiler) and covers integers, arrays, slices, struct fields, control flow and method calls: statuses, coroutines and suspension, I/O built-ins, iterate, choose, SIMD, io_bind/io_limit and lib/dumbindent formatting are NOT compared (std/ under engine C exercises those paths of cgen only through decoder behaviour). A run in which the interpreter stops with a C01-class violation or leaves its subset, or wuffs-c declines the program, gives no comparison (counted). 'Generated C does not compile' is reported only when clang's first error lies in the generated package file; an error in the harness's main.c is harness trouble (exit 2).",
+    "deterministic simulation: one seeded public-call history on persistent receiver state executed by a reference interpreter (model) and by the generated C compiled at check time under sanitizers, differential",
+    "DESIGN.md section 3 D, section 5 C04, Appendix E"))
+
 NA_REASONS = {
  "C06": "pure function of two big.Int interval pairs: no stream, state, schedule, fault or history exists for a simulator to control (DESIGN.md section 7)",
  "C10": "static property of an object file (sections, symbols) plus constness of pure methods: decided by inspecting a binary, not by simulating executions (DESIGN.md section 7)",
@@ -133,7 +140,7 @@ def main():
         },
         "engines": [
             {"name": "envsim", "path": "/verif/engines/envsim", "serves_properties": ["C20"], "kind_free_text": "the real compiler under seeded map-iteration / directory-enumeration order (rewrite/maprange.go + engines/envsim/rt as a virtual package), environment, cwd and GOMAXPROCS; whole `wuffs gen std/...` runs compared by artefact hash"},
-            {"name": "wsim", "path": "/verif/engines/wsim", "serves_properties": ["C01", "C02"], "kind_free_text": "reference interpreter over the AST returned by the working tree's check.Check (ideal integers), derived-range and safety monitor, seeded near-miss / control-flow / axiom-instance program generators and public-call histories; for C02 the checker's fact lists are observed through rewrite/factobs.go"},
+            {"name": "wsim", "path": "/verif/engines/wsim", "serves_properties": ["C01", "C02", "C04"], "kind_free_text": "reference interpreter over the AST returned by the working tree's check.Check (ideal integers), derived-range and safety monitor, seeded near-miss / control-flow / axiom-instance program generators and public-call histories; for C02 the checker's fact lists are observed through rewrite/factobs.go"},
             {"name": "csim", "path": "/verif/engines/csim", "serves_properties": ["C03", "C05", "C07", "C08", "C09"], "kind_free_text": "I/O-delivery schedule simulator: a Go-side producer/consumer drives, call by call, a C driver child (/verif/csim/driver.c) linked against C that `wuffs gen` produces from the working tree at check time; sanitizer and -O2 builds, cached by content hash"},
             {"name": "gosim", "path": "/verif/engines/gosim", "serves_properties": ["C14"], "kind_free_text": "seeded goroutine scheduler (simrt) under the real lib/rac concurrent reader, whose channel constructs are rewritten at check time by /verif/rewrite and injected with go build -overlay"},
             {"name": "disksim", "path": "/verif/engines/disksim", "serves_properties": ["C13", "C15"], "kind_free_text": "simulated storage (fault-injecting io.Writer/TempFile, op-counting ReadSeeker) under the real lib/rac writer and readers"},
